@@ -26,11 +26,13 @@ RULE = ("(a) random complex Waves on odd/even/rectangular grids 5-64 with 0-2 en
         "{cutoff, valid, full, float inside the grid}, parity in {same, odd, even}, float32/float64, eager/lazy, optional "
         "block_direct=float in the same call; (b) DiffractionPatterns built directly with strictly positive values, sizes 5-64 "
         "odd/even/rectangular, fftshift True/False, anisotropic sampling, radius explicit/default, margin None/True/False, with and "
-        "without semiangle_cutoff metadata, ensembles, eager/lazy; non-trivial = cropped shape differs from the grid in an axis, or "
+        "without semiangle_cutoff metadata, ensembles, eager/lazy (chunked along ensemble axes; split base axes are offered too: a "
+        "loud refusal is noted, a result is judged); 30-35 % of the cases are histories: the same input again in the same process "
+        "with exactly one parameter changed (energy, radius, margin, layout, sampling/extent, max_angle, parity); non-trivial = cropped shape differs from the grid in an axis, or "
         "a blocked disc with pixels inside and outside; distinct = distinct case signature")
 CLAUSES = ["full-values", "crop-centred", "unshifted-is-ifftshift", "parity", "angle-range", "limits", "crop-method", "crop-method-unshifted",
-           "block-inside-zero", "block-outside-unchanged", "block-unshifted", "block-in-pipeline"]
-QUICK = dict(n=260, time=40)
+           "block-inside-zero", "block-outside-unchanged", "block-unshifted", "block-in-pipeline", "history"]
+QUICK = dict(n=220, time=40)
 THOROUGH = dict(n=8000, time=300, shards=16)
 ASSUMPTIONS = ["float max_angle values are drawn inside the simulated grid; parity is judged for angle-limited patterns only "
                "(max_angle='full' returns the wave grid by definition)",
@@ -52,23 +54,53 @@ def gen(rng, tier):
         # real-space sampling with an anisotropy of at most 2, so that the antialias cutoff keeps >= 1 pixel per axis
         sx = float(rng.uniform(0.05, 0.4))
         sy = sx if rng.random() < 0.3 else float(sx * rng.uniform(0.5, 2.0))
-        return {"kind": "waves", "gpts": [nx, ny], "extent": [nx * sx, ny * sy],
+        case = {"kind": "waves", "gpts": [nx, ny], "extent": [nx * sx, ny * sy],
                 "energy": energy, "axes": spec, "chunks": [int(rng.integers(1, 4)) for _ in spec],
                 "lazy": bool(rng.random() < 0.3), "precision": str(rng.choice(["float32", "float64"])),
                 "max_angle": ma, "frac": float(rng.uniform(0.05, 0.97)), "parity": str(rng.choice(["same", "odd", "even"])),
                 "crop_gpts": [int(rng.integers(1, nx + 1)), int(rng.integers(1, ny + 1))], "crop_frac": float(rng.uniform(0.05, 0.95)),
-                "block": (None if rng.random() < 0.5 else float(rng.uniform(0.3, 6.0))), "seed": int(rng.integers(0, 2 ** 31))}
+                "block": (None if rng.random() < 0.5 else float(rng.uniform(0.3, 6.0))), "seed": int(rng.integers(0, 2 ** 31)),
+                "crop_base_chunks": L.rand_base_chunks(rng, (nx, ny), p_split=0.3)}
+        if rng.random() < 0.3:
+            # history: the same waves again in the same process with exactly one parameter changed
+            k = int(rng.integers(0, 5))
+            case["then"] = [{"energy": float(rng.choice([e for e in (30e3, 60e3, 100e3, 200e3, 300e3) if e != energy]))} if k == 0 else
+                            {"max_angle": "float", "frac": float(rng.uniform(0.05, 0.97))} if k == 1 else
+                            {"parity": str(rng.choice([q for q in ("same", "odd", "even") if q != case["parity"]]))} if k == 2 else
+                            {"block": float(rng.uniform(0.3, 6.0))} if k == 3 else
+                            {"extent": [case["extent"][0] * float(rng.uniform(0.7, 1.4)), case["extent"][1]]}]
+        return case
     spec = L.rand_axes(rng, max_axes=2, max_len=3)
     rk = rng.random()
-    return {"kind": "block", "gpts": [nx, ny], "sampling": [float(rng.uniform(0.01, 0.2)), float(rng.uniform(0.01, 0.2))],
+    lazy = bool(rng.random() < 0.3)
+    case = {"kind": "block", "gpts": [nx, ny], "sampling": [float(rng.uniform(0.01, 0.2)), float(rng.uniform(0.01, 0.2))],
             "energy": energy, "fftshift": bool(rng.random() < 0.5), "axes": spec, "chunks": [int(rng.integers(1, 4)) for _ in spec],
-            "lazy": bool(rng.random() < 0.3), "dtype": str(rng.choice(["float32", "float64"])),
+            "lazy": lazy, "base_chunks": (L.rand_base_chunks(rng, (nx, ny), p_split=0.3) if lazy else None),
+            "dtype": str(rng.choice(["float32", "float64"])),
             # radius in units of the larger angular pixel: None = default
             "radius_px": (None if rk < 0.35 else float(rng.choice([0.0, 0.5, 1.0, 1.5, 2.0, float(rng.uniform(0.2, 0.45 * min(nx, ny))),
                                                                     float(rng.uniform(0.2, 0.45 * min(nx, ny)))]))),
             "margin": [None, True, False][int(rng.integers(0, 3))],
             "semiangle_px": (None if rng.random() < 0.5 else float(rng.uniform(0.5, 0.3 * min(nx, ny)))),
             "seed": int(rng.integers(0, 2 ** 31))}
+    if rng.random() < 0.35:
+        then = []
+        for _ in range(int(rng.integers(1, 3))):
+            k = int(rng.integers(0, 6))
+            if k == 0:
+                then.append({"energy": float(rng.choice([e for e in (20e3, 60e3, 100e3, 200e3, 300e3) if e != energy]))})
+            elif k == 1:
+                then.append({"radius_px": float(rng.uniform(0.2, 0.45 * min(nx, ny)))})
+            elif k == 2:
+                then.append({"margin": [None, True, False][int(rng.integers(0, 3))]})
+            elif k == 3:
+                then.append({"fftshift": not case["fftshift"]})
+            elif k == 4:
+                then.append({"sampling": [float(rng.uniform(0.01, 0.2)), float(rng.uniform(0.01, 0.2))]})
+            else:
+                then.append({"semiangle_px": (None if case["semiangle_px"] is not None else float(rng.uniform(0.5, 0.3 * min(nx, ny))))})
+        case["then"] = then
+    return case
 
 
 # ------------------------------------------------------------------------------------------ helpers
@@ -185,6 +217,24 @@ def check_waves(ctx, case):
         ctx.expect(crF.fftshift is False, "crop-method-unshifted", what="layout flag")
         ctx.close(L.as_numpy(crF), np.fft.ifftshift(centred_window(fullv, g), axes=(-2, -1)), "crop-method-unshifted", rtol=0,
                   atol=0, gpts=list(g), grid=[nx, ny])
+        # ... and on a lazily stored copy of the full pattern whose base axes are split (refusal noted, result judged)
+        if case.get("crop_base_chunks"):
+            from abtem.measurements import DiffractionPatterns
+            lz = DiffractionPatterns(L.chunk_array(fullv, case["chunks"], base_chunks=case["crop_base_chunks"]), sampling=full.sampling,
+                                     fftshift=True, ensemble_axes_metadata=list(full.ensemble_axes_metadata), metadata=dict(full.metadata))
+            ctx.monitor("lazy-base-axes-chunked")
+            try:
+                cz = L.as_numpy(lz.crop(gpts=g))
+            except (ValueError, RuntimeError, AssertionError, IndexError) as e:
+                # (repaired by fix 5b2469f3: a refusal or a wrongly shaped result is a violation again)
+                ctx.expect(False, "crop-method", what="lazy base-chunked crop raised", error=repr(e)[:200],
+                           base_chunks=case["crop_base_chunks"])
+                cz = None
+            if cz is not None and cz.shape == fullv.shape[:-2] + g:
+                ctx.close(cz, centred_window(fullv, g), "crop-method", rtol=0, atol=0, gpts=list(g), base_chunks=case["crop_base_chunks"])
+            elif cz is not None:
+                ctx.expect(False, "crop-method", what="lazy base-chunked crop has the wrong shape", shape=list(cz.shape),
+                           base_chunks=case["crop_base_chunks"])
         ca = case["crop_frac"] * min(nx // 2 * px, ny // 2 * py)
         cr = full.crop(max_angle=ca)
         cv = L.as_numpy(cr)
@@ -194,7 +244,7 @@ def check_waves(ctx, case):
                    max_angle=ca)
         # block_direct inside the same call
         if case["block"] is not None:
-            R = case["block"] * max(px, py)
+            R = case["block"] * case.get("_unit", max(px, py))
             for shifted, base in ((True, vT), (False, vF)):
                 b = w.diffraction_patterns(max_angle=max_angle, parity=case["parity"], fftshift=shifted, block_direct=R)
                 angles, _ = pixel_angles((n, m), s, case["energy"], shifted)
@@ -213,13 +263,17 @@ def check_block(ctx, case):
     shifted = case["fftshift"]
     angles, (px, py) = pixel_angles((nx, ny), case["sampling"], case["energy"], shifted)
     pmax = max(px, py)
+    # radii are generated in units of the larger angular pixel; inside a history the unit is the pixel of the first step, so
+    # that a step which changes the energy or the sampling keeps numerically identical radii in mrad
+    unit = case.get("_unit", pmax)
     md = {"energy": case["energy"]}
     if case["semiangle_px"] is not None:
-        md["semiangle_cutoff"] = case["semiangle_px"] * pmax
-    arr = L.chunk_array(I, case["chunks"]) if case["lazy"] else I.copy()
+        md["semiangle_cutoff"] = case["semiangle_px"] * unit
+    arr = L.chunk_array(I, case["chunks"], base_chunks=case.get("base_chunks")) if case["lazy"] else I.copy()
+    split = case["lazy"] and bool(case.get("base_chunks"))
     dp = DiffractionPatterns(arr, sampling=tuple(case["sampling"]), fftshift=shifted, metadata=md,
                              ensemble_axes_metadata=L.make_axes(spec))
-    radius = None if case["radius_px"] is None else case["radius_px"] * pmax
+    radius = None if case["radius_px"] is None else case["radius_px"] * unit
     # effective radius as documented
     if radius is not None:
         R = radius
@@ -237,8 +291,25 @@ def check_block(ctx, case):
         kwargs["radius"] = radius
     if case["margin"] is not None:
         kwargs["margin"] = case["margin"]
-    out = dp.block_direct(**kwargs)
-    after = L.as_numpy(out)
+    if split:
+        # A lazily stored pattern whose base axes are split into several chunks: abTEM applies the mask block-wise with the
+        # coordinates of the whole pattern and refuses loudly (broadcast error).  A refusal is noted, a result is judged.
+        ctx.monitor("lazy-base-axes-chunked")
+        try:
+            out = dp.block_direct(**kwargs)
+            after = L.as_numpy(out)
+        except (ValueError, RuntimeError, AssertionError, IndexError) as e:
+            # (repaired by fix 5b2469f3: a refusal or a wrongly shaped result is a violation again)
+            ctx.expect(False, "block-outside-unchanged", what="lazy base-chunked block_direct raised", error=repr(e)[:200])
+            return
+        if after.shape != I.shape:
+            ctx.expect(False, "block-outside-unchanged", what="lazy base-chunked block_direct has the wrong shape",
+                       shape=list(after.shape), want=list(I.shape))
+            return
+        ctx.monitor("base-chunked-block-direct-judged")
+    else:
+        out = dp.block_direct(**kwargs)
+        after = L.as_numpy(out)
     if not ctx.expect(after.shape == I.shape and type(out) is DiffractionPatterns and out.fftshift == shifted, "block-outside-unchanged",
                       what="type/shape/layout", shape=list(after.shape)):
         return
@@ -248,11 +319,26 @@ def check_block(ctx, case):
     ctx.nontrivial(nin >= 1 and nout >= 1)
 
 
+def _unit(step):
+    """Larger angular pixel [mrad] of a step."""
+    samp = step["sampling"] if step["kind"] == "block" else (1.0 / step["extent"][0], 1.0 / step["extent"][1])
+    lam = L.wavelength(step["energy"])
+    return max(samp) * lam * 1e3
+
+
 def check(ctx, case):
-    if case["kind"] == "waves":
-        check_waves(ctx, case)
-    else:
-        check_block(ctx, case)
+    steps = L.steps_of(case)
+    if len(steps) > 1:
+        for st in steps:
+            st["_unit"] = _unit(steps[0])
+    for i, step in enumerate(steps):
+        if i:
+            ctx.monitor("history-steps")
+            ctx.clauses["history"] += 1      # judged by the regular clauses
+        if step["kind"] == "waves":
+            check_waves(ctx, step)
+        else:
+            check_block(ctx, step)
 
 
 def fixed_cases(tier):
@@ -260,10 +346,14 @@ def fixed_cases(tier):
     for g in ([9, 8], [8, 9], [7, 7], [6, 6]):
         for sh in (False, True):
             out.append({"kind": "block", "gpts": g, "sampling": [0.05, 0.04], "energy": 100e3, "fftshift": sh, "axes": [], "chunks": [],
-                        "lazy": False, "dtype": "float32", "radius_px": None, "margin": None, "semiangle_px": None, "seed": 5})
+                        "lazy": False, "base_chunks": None, "dtype": "float32", "radius_px": None, "margin": None, "semiangle_px": None, "seed": 5})
     for sh in (False, True):
         out.append({"kind": "block", "gpts": [7, 6], "sampling": [0.05, 0.04], "energy": 100e3, "fftshift": sh, "axes": [], "chunks": [],
-                    "lazy": False, "dtype": "float64", "radius_px": 0.0, "margin": False, "semiangle_px": None, "seed": 6})
+                    "lazy": False, "base_chunks": None, "dtype": "float64", "radius_px": 0.0, "margin": False, "semiangle_px": None, "seed": 6})
+    # energy series on the same pattern (the blocked disc is defined in mrad), then another radius and the other layout
+    out.append({"kind": "block", "gpts": [17, 16], "sampling": [0.05, 0.04], "energy": 300e3, "fftshift": True, "axes": [{"k": "S", "n": 2}],
+                "chunks": [1], "lazy": True, "base_chunks": None, "dtype": "float32", "radius_px": 3.0, "margin": False, "semiangle_px": None,
+                "seed": 9, "then": [{"energy": 60e3}, {"radius_px": 1.5}, {"fftshift": False}]})
     out.append({"kind": "waves", "gpts": [15, 12], "extent": [9.0, 7.0], "energy": 100e3, "axes": [{"k": "O", "n": 2}], "chunks": [1],
                 "lazy": False, "precision": "float32", "max_angle": "float", "frac": 0.5, "parity": "odd", "crop_gpts": [7, 4],
                 "crop_frac": 0.4, "block": 1.5, "seed": 11})
